@@ -85,8 +85,36 @@ def facts(repo):
         lines.append("Definition %s : list (string * string) :=\n  %s." % (
             name.replace("MAP_", "map_"),
             srcfacts.coq_list(["(%s, %s)" % (srcfacts.coq_string(k), srcfacts.coq_string(v)) for k, v in items])))
+    # the names CBO accepts: every accepted name must have a declared meaning in Names.v (a new name that nobody looked at fails
+    # closed).  These are literal lists inside CBO.__init__ (or anywhere in the module): ast only.
+    allowed = _ast_string_lists(path, ALLOWED_NAMES)
+    for name in ALLOWED_NAMES:
+        if allowed.get(name) is None:
+            why = "no literal list of strings assigned to %s in %s" % (name, path)
+            return srcfacts.fail_closed(why), {"error": why}
+        info[name] = allowed[name]
+        lines.append("Definition cbo_%s : list string :=\n  %s." % (name, srcfacts.coq_list([srcfacts.coq_string(v) for v in allowed[name]])))
     text = "Definition srcfacts_ok := true.\n" + "\n".join(lines) + "\n"
     return text, info
+
+
+ALLOWED_NAMES = ("multi_point_strategy_allowed", "acq_func_allowed")
+
+
+def _ast_string_lists(path, names):
+    """{name: [str, ...] | None}: assignments `name = [<string constants>]` anywhere in the file; None if some assignment to the name
+    is not of that shape or two assignments disagree."""
+    tree = ast.parse(open(path).read(), filename=path)
+    out = {}
+    for n in ast.walk(tree):
+        if isinstance(n, ast.Assign) and len(n.targets) == 1 and isinstance(n.targets[0], ast.Name) and n.targets[0].id in names:
+            nm, v = n.targets[0].id, n.value
+            if isinstance(v, (ast.List, ast.Tuple)) and all(isinstance(e, ast.Constant) and isinstance(e.value, str) for e in v.elts):
+                vals = [e.value for e in v.elts]
+                out[nm] = vals if out.get(nm, vals) == vals else None
+            else:
+                out[nm] = None
+    return out
 
 
 TRUSTED = [
@@ -111,9 +139,7 @@ TRUSTED = [
 ]
 ASSUMPTIONS = [
     "objective values are finite numbers (NaN/inf belong to C06)",
-    "constant-liar lies with several objectives AND a failed evaluation raise ValueError in Optimizer.ask (inhomogeneous list), and "
-    "CBO.fit_surrogate with filter_failures='ignore' tells the failures and the surrogate fit raises on 'F' - both C06-type defects reported to "
-    "the coordinator; these combinations are outside the C05 streams",
+    "a first tell that contains only failed evaluations is C06's subject (the C05 streams start with an observation)",
     "moo_upper_bounds (penalty) is not modelled",
     "Model.v describes the REPAIRED scalarize() (fixes/F07_scalarize_relative_to_utopia.patch); today's behaviour is scal_hist_today / C05_cheb_refuted",
 ]
@@ -361,7 +387,11 @@ def run_scalariser(kind, w, par, rows, prefix=0):
         [f.scalarize(y) for y in Y[:prefix]]
         f.update_weight()
     f.normalize(Y)
-    return [float(f.scalarize(y)) for y in Y]
+    Y0 = Y.copy()
+    vals = [float(f.scalarize(y)) for y in Y]
+    if not np.array_equal(Y, Y0):
+        raise AssertionError("scalarize() modified its input rows")
+    return vals
 
 
 def scalar_oracles(res, m, kind, w, rows, vals, dominance=None):
@@ -521,18 +551,27 @@ def check_fit_targets(case):
     ys, pol, scaler, kind, w = case["ys"], case["pol"], case["scaler"], case["kind"], case["w"]
     n_obj = case["n_obj"]
     m = model()
-    opt, Spy = make_optimizer(len(ys), pol, scaler, kind, w)
+    import copy
+
+    par = case.get("par")
+    opt, Spy = make_optimizer(len(ys), pol, scaler, scalariser_instance(kind, n_obj, w, par) if par is not None else kind, w)
     X = [[i] for i in range(len(ys))]
     told = ["F" if y is None else (y[0] if n_obj == 1 else list(y)) for y in ys]
+    told0 = copy.deepcopy(told)
     for a, b in segments(len(ys), case.get("cuts")):   # the history arrives in 1-4 tells; every tell refits the surrogate
         opt.tell(X[a:b], told[a:b])
     fitted = Spy.fits[-1]
+    # scaling / scalarising / imputing work on copies: the caller's lists and the optimizer's own history keep the told values
+    if told != told0 or list(opt.yi) != told0:
+        return dict(ok=False, kind="oracle", clause="told_values_modified", nontrivial=True, desc=["mutation"],
+                    sig=dict(clause="told_values_modified"), detail=dict(told=told0, after=told, history=repr(opt.yi)[:400]))
     good_idx = [i for i, y in enumerate(ys) if y is not None]
     good_rows = Fm([ys[i] for i in good_idx])
     sk = SCKIND["identity" if scaler == "auto" else scaler]   # the spy is not a forest: auto = identity
     utag = "zero" if sk != 0 else utopia_tag(good_rows)
     res = base_res(["n_obj=%d" % n_obj, "scaler=" + scaler, "kind=" + kind, "pol=" + pol, "fails=%d" % (len(ys) - len(good_idx)),
-                    sign_tag(good_rows), "tells=%d" % len(segments(len(ys), case.get("cuts")))], nontrivial=len(set(map(tuple, good_rows))) > 1,
+                    sign_tag(good_rows), "tells=%d" % len(segments(len(ys), case.get("cuts"))), "scalariser=" + ("object" if par is not None else "name")],
+                   nontrivial=len(set(map(tuple, good_rows))) > 1,
                    scalarisation=kind if n_obj > 1 else "none", scaler=scaler, utopia=utag if n_obj > 1 else "n/a")
     if len(fitted) != len(ys):
         return fail(res, "corr", "fit_length", dict(fitted=fitted))
@@ -560,7 +599,7 @@ def check_fit_targets(case):
     if n_obj == 1:
         scaled = unqs(m.call(F_SOSCALE, qpack(sk, [r[0] for r in good_rows])))
     else:
-        parq = F(DEFAULT_PAR[kind])
+        parq = F(DEFAULT_PAR[kind] if par is None else par)
         scaled = unqs(m.call(F_MOO, qpack(sk, SKIND[kind], parq, Fl(w), n_obj, good_rows)))
     it = iter(scaled)
     opts = [[next(it)] if y is not None else [] for y in ys]
@@ -591,8 +630,12 @@ def gen_fit_targets(count):
             if rows[0] is None:   # the first tell must contain an observation (an all-failure first fit is C06's subject)
                 j = next(j for j, r in enumerate(rows) if r is not None)
                 rows[0], rows[j] = rows[j], rows[0]
-            yield dict(ys=rows, n_obj=n_obj, pol=["max", "mean"][(i // 7) % 2], scaler=scalers[(i // 2) % 4], kind=kinds[i % 5],
-                       w=gen_weights(rng, n_obj, positive=True if i % 4 else None), cuts=gen_cuts(rng, n))
+            case = dict(ys=rows, n_obj=n_obj, pol=["max", "mean"][(i // 7) % 2], scaler=scalers[(i // 2) % 4], kind=kinds[i % 5],
+                        w=gen_weights(rng, n_obj, positive=True if i % 4 else None), cuts=gen_cuts(rng, n))
+            if n_obj > 1 and rng.random() < 0.25:   # a scalariser object with its own parameter instead of a name
+                case["par"] = {"AugChebyshev": rng.choice([0.25, 2.0 ** -10, 0.0]), "PBI": rng.choice([4.0, 0.5, 0.0]),
+                               "Quadratic": rng.choice([8.0, 2.0, 1.0])}.get(case["kind"], 0.0)
+            yield case
     return gen
 
 
@@ -622,24 +665,45 @@ def const_scheduler(i, eta_0):
     return eta_0
 
 
+ZCAT = ["a", "b", "c", "d"]
+
+
 def make_cbo(d, n_x, surrogate, n_obj_kind="Chebyshev", w=None, strategy="cl_max", ff="min", acq="UCB", kappa=0.0, scaler="identity",
-             n_points=16, seed=0, surrogate_kwargs=None, n_z=1, filter_duplicated=False):
+             n_points=16, seed=0, surrogate_kwargs=None, n_z=1, filter_duplicated=False, zcat=False, **extra):
     from deephyper.hpo import CBO, HpProblem
 
     pb = HpProblem()
     pb.add_hyperparameter((0, max(1, n_x - 1)), "x")
     if n_z > 1:
-        pb.add_hyperparameter((0, n_z - 1), "z")
+        pb.add_hyperparameter(ZCAT[:n_z] if zcat else (0, n_z - 1), "z")
 
     def run(job):
         return 0.0
 
     s = CBO(pb, run, log_dir=d, random_state=seed, surrogate_model=surrogate, surrogate_model_kwargs=surrogate_kwargs, acq_func=acq, kappa=kappa,
             acq_optimizer="sampling", n_points=n_points, filter_duplicated=filter_duplicated, n_initial_points=1, scheduler=const_scheduler, objective_scaler=scaler,
-            moo_scalarization_strategy=n_obj_kind, moo_scalarization_weight=w, multi_point_strategy=strategy, filter_failures=ff, verbose=0)
+            moo_scalarization_strategy=n_obj_kind, moo_scalarization_weight=w, multi_point_strategy=strategy, filter_failures=ff, verbose=0, **extra)
     # CBO.tell / CBO.ask need the optimizer that CBO._search creates on its first call
     s._setup_optimizer()
     return s
+
+
+def scalariser_instance(kind, n_obj, w, par):
+    """a MoScalarFunction object given instead of a name (the second way to choose the scalarisation), with its own parameter."""
+    from deephyper.skopt.moo import moo_functions
+
+    kw = {PAR_KW[kind]: par} if par is not None and kind in PAR_KW else {}
+    return moo_functions[kind](n_objectives=n_obj, weight=list(w), random_state=0, **kw)
+
+
+def as_type(v, otype):
+    import numpy as np
+
+    if otype == "int" and float(v).is_integer():
+        return int(v)
+    if otype == "np":
+        return np.float64(v)
+    return float(v)
 
 
 def check_lies(case):
@@ -653,23 +717,35 @@ def check_lies(case):
     exact = strategy != "cl_mean" and case["pol"] != "mean"
     if case["level"] == "opt":
         opt, Spy = make_optimizer(len(ys), case["pol"], "identity", "Linear", [1.0 / n_obj] * n_obj, n_points=8)
+        import copy
+
         told = ["F" if y is None else (y[0] if n_obj == 1 else list(y)) for y in ys]
         opt.tell([[i] for i in range(len(ys))], told)
+        n_ask = case.get("n_ask", 2)
+        before = copy.deepcopy((opt.Xi, opt.yi, len(opt.models)))
         with tell_spy("_tell") as sp:
-            opt.ask(n_points=2, strategy=strategy)
+            opt.ask(n_points=n_ask, strategy=strategy)
+        # the lies live in a copy of the optimizer: the history and the fitted models of the optimizer itself are untouched
+        if (opt.Xi, opt.yi, len(opt.models)) != before:
+            return fail(res, "oracle", "lies_left_in_history", dict(before=repr(before)[:300], after=repr((opt.Xi, opt.yi))[:300]))
         lies = [y for (x, y) in sp.calls if not is_2d(x)]
-        if len(lies) != 1:
+        if len(lies) != n_ask - 1:
             return fail(res, "corr", "lie_count", dict(calls=repr(sp.calls)[:500]))
-        lie = lies[0]
-        if n_obj == 1:
-            opts = [[] if y is None else [F(y[0])] for y in ys]
-            mod = [unq(m.call(F_YLIE, qpack(FPOL[case["pol"]], kind_tok, opts)))]
-            got = [F(lie)]
-        else:
-            mod = unqs(m.call(F_LIEVEC, qpack(kind_tok, n_obj, rows_good)))
-            got = Fl(lie)
-        if not lists_close(got, mod, exact, 1e-12):
-            return fail(res, "corr", "lie_value", dict(impl=lie, model=[float(x) for x in mod]))
+        # model: every lie is computed on the failure-imputed history INCLUDING the previous lies
+        hist = [None if y is None else Fl(y) for y in ys]
+        pol_kind = LKIND["cl_max"] if case["pol"] == "max" else LKIND["cl_mean"]
+        for lie in lies:
+            good = [r for r in hist if r is not None]
+            if n_obj == 1:
+                mod = [unq(m.call(F_YLIE, qpack(FPOL[case["pol"]], kind_tok, [[] if r is None else [r[0]] for r in hist])))]
+                got = [F(lie)]
+            else:
+                fill = unqs(m.call(F_LIEVEC, qpack(pol_kind, n_obj, good))) if good else [Fraction(0)] * n_obj
+                mod = unqs(m.call(F_LIEVEC, qpack(kind_tok, n_obj, [fill if r is None else r for r in hist])))
+                got = Fl(lie)
+            if not lists_close(got, mod, exact and len(lies) == 1, 1e-12):
+                return fail(res, "corr", "lie_value", dict(impl=lie, model=[float(x) for x in mod]))
+            hist.append(got)
         return res
     # ---- CBO level: user names; objectives are the user's (larger is better) ----
     import numpy as np
@@ -733,11 +809,11 @@ def gen_lies(count):
             n_obj = [1, 1, 2, 3][i % 4]
             n = rng.choice([1, 2, 3, 4, 8]) if tier != "search" else rng.randint(1, 4)
             rows = gen_rows(rng, n, n_obj, SIGNS[(i // 4) % 3])
-            if n_obj == 1 and rng.random() < 0.4 and n > 1:
-                for j in rng.sample(range(n), rng.randint(1, n - 1)):
+            if (n_obj == 1 or level == "opt") and rng.random() < 0.4 and n > 1:
+                for j in rng.sample(range(1, n), rng.randint(1, n - 1)):   # the first told result is an observation
                     rows[j] = None
             pol = (["min", "mean"] if level == "cbo" else ["max", "mean"])[(i // 5) % 2]
-            yield dict(level=level, ys=rows, n_obj=n_obj, strategy=strategies[(i // 2) % 3], pol=pol)
+            yield dict(level=level, ys=rows, n_obj=n_obj, strategy=strategies[(i // 2) % 3], pol=pol, n_ask=rng.choice([2, 2, 3, 4]))
     return gen
 
 
@@ -748,14 +824,30 @@ def check_cbo_tell(case):
     ys, ff, n_obj, path = case["ys"], case["ff"], case["n_obj"], case["path"]
     m = model()
     Spy = spy_class()
-    res = base_res(["path=" + path, "ff=" + ff, "n_obj=%d" % n_obj, "fails=%d" % sum(y is None for y in ys)],
+    res = base_res(["path=" + path, "ff=" + ff, "n_obj=%d" % n_obj, "fails=%d" % sum(y is None for y in ys), "otype=" + case.get("otype", "float")],
                    nontrivial=len({tuple(y) for y in ys if y is not None}) > 1, path=path, filter_failures=ff)
     with tempfile.TemporaryDirectory(prefix="vp_c05_") as d:
         s = make_cbo(d, len(ys), Spy(), ff=ff, w=[1.0 / n_obj] * n_obj, n_obj_kind="Linear")
         with tell_spy("tell") as sp:
+            otype = case.get("otype", "float")
             if path == "tell":
-                results = [({"x": i}, case["fail_label"] if y is None else (y[0] if n_obj == 1 else tuple(y))) for i, y in enumerate(ys)]
+                import copy
+
+                results = [({"x": i}, case["fail_label"] if y is None else
+                            (as_type(y[0], otype) if n_obj == 1 else (list if otype == "np" else tuple)(as_type(v, otype) for v in y)))
+                           for i, y in enumerate(ys)]
+                results0 = copy.deepcopy(results)
                 s.tell(results)
+                if repr(results) != repr(results0):
+                    return fail(res, "oracle", "results_modified", dict(before=repr(results0)[:300], after=repr(results)[:300]))
+            elif path == "fit_surrogate_df":
+                import pandas as pd
+
+                data = {"p:x": list(range(len(ys)))}
+                for j in range(n_obj):
+                    data["objective" if n_obj == 1 else "objective_%d" % j] = [float(y[j]) for y in ys]
+                data["job_id"] = list(range(len(ys)))
+                s.fit_surrogate(pd.DataFrame(data))
             else:
                 csv = os.path.join(d, "prev.csv")
                 cols = ["objective"] if n_obj == 1 else ["objective_%d" % j for j in range(n_obj)]
@@ -789,7 +881,7 @@ def check_cbo_tell(case):
         return fail(res, "oracle", "failure_told_as_number", dict(told=repr(Y)[:300]))
     # correspondence with cbo_tell (the order of the told list is not part of the relation)
     jobs = [[i, ([] if y is None else [Fl(y)])] for i, y in enumerate(ys)]
-    mod = m.call(F_TELL, qpack(path == "tell" and ff == "ignore", jobs))
+    mod = m.call(F_TELL, qpack(ff == "ignore", jobs))   # both CBO.tell and CBO.fit_surrogate drop the failures under "ignore"
     mod_c = sorted((c, None if not t else tuple(unqs(t[0]))) for c, t in mod)
     if sorted(got) != mod_c:
         return fail(res, "corr", "told_values", dict(impl=repr(sorted(got))[:600], model=repr(mod_c)[:600]))
@@ -807,11 +899,10 @@ def gen_cbo_tell(count):
                 for j in rng.sample(range(n), rng.randint(1, n - 1)):
                     rows[j] = None
             path, ff = ["tell", "fit_surrogate"][(i // 2) % 2], ["min", "mean", "ignore"][(i // 4) % 3]
-            if path == "fit_surrogate" and ff == "ignore":
-                # fit_surrogate tells the failures even under "ignore" and the surrogate fit then raises on "F" (a C06-type defect,
-                # reported to the coordinator): outside this stream
-                rows = [r if r is not None else gen_rows(rng, 1, n_obj, "mixed")[0] for r in rows]
-            yield dict(path=path, ys=rows, n_obj=n_obj, ff=ff, fail_label=rng.choice(["F", "F_timeout", "F_fail"]))
+            if path == "fit_surrogate" and all(r is not None for r in rows) and rng.random() < 0.5:
+                path = "fit_surrogate_df"   # a DataFrame instead of a csv path
+            yield dict(path=path, ys=rows, n_obj=n_obj, ff=ff, fail_label=rng.choice(["F", "F_timeout", "F_fail"]),
+                       otype=rng.choice(["float", "int", "np"]))
     return gen
 
 
@@ -973,8 +1064,15 @@ def check_scalers(case):
         if interior_ties([Fl(Y[:, j]) for j in range(ncol)]):
             return dict(res, desc=res["desc"] + ["quantile-interior-ties"])
     mod = m.call(F_SCALEHIST, qpack(SCKIND[expect], ncol, Fm(rows)))
+    tol = 1e-12
+    if expect == "minmax":
+        # MinMaxScaler computes x*scale + (-min*scale): the rounding error grows with |offset| / range (2 ulp of |x| * scale)
+        for j in range(ncol):
+            rng_j = float(Y[:, j].max() - Y[:, j].min())
+            if rng_j > 0:
+                tol = max(tol, 8 * 2.0 ** -52 * float(np.abs(Y[:, j]).max()) / rng_j)
     for r_impl, r_mod in zip(T.tolist(), mod):
-        if not lists_close(Fl(r_impl), unqs(r_mod), expect == "identity", 1e-12):
+        if not lists_close(Fl(r_impl), unqs(r_mod), expect == "identity", tol):
             return fail(res, "corr", "scaled_values", dict(impl=T.tolist(), model=[[float(unq(x)) for x in r] for r in mod]))
     return res
 
@@ -986,6 +1084,13 @@ def gen_scalers(count):
             n = rng.choice([1, 2, 3, 4, 5, 6, 7, 8, 9, 11, 14, 17]) if tier != "search" else rng.randint(1, 5)
             ncol = rng.choice([1, 2, 3])
             rows = [[dy(rng, -8, 8) if rng.random() < 0.8 else rng.choice([0.0, 1.0]) for _ in range(ncol)] for _ in range(n)]
+            r = rng.random()
+            if r < 0.1:      # a constant column (zero range)
+                j, v = rng.randrange(ncol), dy(rng, -8, 8)
+                rows = [row[:j] + [v] + row[j + 1:] for row in rows]
+            elif r < 0.2:    # a large offset with small dyadic variations (exact in binary64)
+                off = rng.choice([2.0 ** 30, -2.0 ** 40])
+                rows = [[off + v for v in row] for row in rows]
             yield dict(scaler=names[i % 4], base=[None, "RF", "ET", "GP"][(i // 4) % 4], rows=rows)
     return gen
 
@@ -998,22 +1103,36 @@ def gen_scalers(count):
 FOREST_KW = dict(n_estimators=4, min_samples_split=2, bootstrap=False, max_samples=None, max_features=1.0, splitter="best")
 
 
+CL = ("cl_min", "cl_mean", "cl_max")
+
+
 def check_e2e(case):
     n_obj, kind, scaler, w, surrogate = case["n_obj"], case["kind"], case["scaler"], case["w"], case["surrogate"]
     objs, nx, nz, kappa = case["objs"], case["nx"], case["nz"], case.get("kappa", 0.0)
     strategy, batch = case.get("strategy", "cl_max"), case.get("batch", 1)
+    fails, ff, par, bounds = set(case.get("fails") or []), case.get("ff", "min"), case.get("par"), case.get("lower_bounds")
+    zcat, otype, path = bool(case.get("zcat")), case.get("otype", "float"), case["path"]
     m = model()
-    cfgs = [{"x": i, "z": j} if nz > 1 else {"x": i} for i in range(nx) for j in range(nz)]
+    zval = (lambda j: ZCAT[j]) if zcat else (lambda j: j)
+    cfgs = [{"x": i, "z": zval(j)} if nz > 1 else {"x": i} for i in range(nx) for j in range(nz)]
     assert len(cfgs) == len(objs)
     objs_q = Fm(objs)
+    ok_idx = [i for i in range(len(objs)) if i not in fails]
+    if fails:   # stand-in for the oracle: a failed configuration is never better than the worst observed one
+        worst = [min(objs_q[i][j] for i in ok_idx) for j in range(n_obj)]
+        objs_q = [worst if i in fails else r for i, r in enumerate(objs_q)]
     forest = surrogate in ("ET", "RF")
     eff_scaler = scaler if scaler != "auto" else ("quantile-uniform" if forest else "identity")
-    told_rows = [[-x for x in r] for r in objs_q]
+    told_rows = [[-x for x in objs_q[i]] for i in ok_idx]
     utag = "n/a" if n_obj == 1 else ("zero" if eff_scaler != "identity" else utopia_tag(told_rows))
     best_first = all(all(a >= b for a, b in zip(objs_q[0], r)) for r in objs_q)
+    segs = segments(len(cfgs), case.get("cuts"))
     res = base_res(["n_obj=%d" % n_obj, "kind=" + (kind if n_obj > 1 else "-"), "scaler=" + scaler, "surrogate=" + surrogate, "acq=" + case["acq"],
-                    "path=" + case["path"], "weights=" + ("random" if w is None else "fixed"), sign_tag(told_rows), "kappa=%g" % kappa,
-                    "tells=%d" % len(segments(len(objs), case.get("cuts"))), "strategy=%s" % strategy, "batch=%d" % batch],
+                    "path=" + path, "weights=" + ("random" if w is None else "fixed"), sign_tag(told_rows), "kappa=%g" % kappa,
+                    "tells=%d" % len(segs), "strategy=%s" % strategy, "batch=%d" % batch, "fails=%d" % min(len(fails), 3),
+                    "asks-between-tells" if case.get("interleave") else "no-asks-between", "scalariser=" + ("object" if par is not None else "name"),
+                    "bounds" if bounds else "no-bounds", "otype=" + otype, "z=" + ("cat" if zcat else "int") if nz > 1 else "z=-",
+                    "pattern=" + case.get("pattern", "-")],
                    nontrivial=len(set(map(tuple, objs))) > 1 and not best_first,
                    scalarisation=kind if n_obj > 1 else "none", scaler=eff_scaler, utopia=utag, surrogate=surrogate, n_obj=n_obj)
     if surrogate == "SPY":
@@ -1021,56 +1140,95 @@ def check_e2e(case):
         sur, kw = Spy(), None
     else:
         sur, kw = surrogate, dict(FOREST_KW)
+    extra = {}
+    if bounds:
+        extra["moo_lower_bounds"] = bounds
+    kind_arg = scalariser_instance(kind, n_obj, w, par) if par is not None else kind
+
+    def outcome(i):
+        if i in fails:
+            return "F_fail"
+        o = [as_type(v, otype) for v in objs[i]]
+        return o[0] if n_obj == 1 else tuple(o)
+
     with tempfile.TemporaryDirectory(prefix="vp_c05_") as d:
-        # one-shot batches ("topk", "boltzmann") rank the candidate list of the last fit: duplicates of the sampled candidates are
-        # filtered there (nothing has been ASKED before, so the filter only removes repeated samples)
-        s = make_cbo(d, nx, sur, n_obj_kind=kind, w=w, acq=case["acq"], kappa=kappa, scaler=scaler, n_points=512, seed=case["seed"],
-                     surrogate_kwargs=kw, n_z=nz, strategy=strategy, filter_duplicated=strategy != "cl_max")
+        # batches ("topk", "boltzmann", "qUCB") rank a de-duplicated candidate list (nothing has been ASKED before, so the filter only
+        # removes repeated samples)
+        s = make_cbo(d, nx, sur, n_obj_kind=kind_arg, w=w, acq=case["acq"], kappa=kappa, scaler=scaler, n_points=512, seed=case["seed"],
+                     surrogate_kwargs=kw, n_z=nz, strategy=strategy, filter_duplicated=strategy not in CL, ff=ff, zcat=zcat, **extra)
         if surrogate == "SPY":
             Spy.stds = case.get("stds")
-        segs = segments(len(cfgs), case.get("cuts"))
+        inter = case.get("interleave") or []
         for bi, (a, b) in enumerate(segs):
-            # "tell": every batch through CBO.tell; "fit_surrogate": the first batch is a checkpoint given to fit_surrogate, the rest is told
-            if case["path"] == "tell" or bi > 0:
-                s.tell([(c, (o[0] if n_obj == 1 else tuple(o))) for c, o in zip(cfgs[a:b], objs[a:b])])
+            # "tell": every batch through CBO.tell; "fit_surrogate*": the first batch is a checkpoint given to fit_surrogate, the rest is told
+            if path == "tell" or bi > 0:
+                s.tell([(dict(cfgs[i]), outcome(i)) for i in range(a, b)])
             else:
-                csv = os.path.join(d, "prev.csv")
                 cols = ["objective"] if n_obj == 1 else ["objective_%d" % j for j in range(n_obj)]
                 names = ["p:x", "p:z"] if nz > 1 else ["p:x"]
-                with open(csv, "w") as f:
-                    f.write(",".join(names + cols + ["job_id"]) + "\n")
-                    for i, (c, o) in enumerate(zip(cfgs[a:b], objs[a:b])):
-                        f.write(",".join([str(c[k[2:]]) for k in names] + [repr(float(v)) for v in o] + [str(i)]) + "\n")
-                s.fit_surrogate(csv)
-        asked = s.ask(batch if strategy != "cl_max" else 1)
-    keys = [{k: int(v) for k, v in nxt.items()} for nxt in asked]
-    if any(key not in cfgs for key in keys):
+                if path == "fit_surrogate_df":
+                    import pandas as pd
+
+                    data = {nm: [cfgs[i][nm[2:]] for i in range(a, b)] for nm in names}
+                    for j, cn in enumerate(cols):
+                        data[cn] = [float(objs[i][j]) for i in range(a, b)]
+                    data["job_id"] = list(range(b - a))
+                    s.fit_surrogate(pd.DataFrame(data))
+                else:
+                    csv = os.path.join(d, "prev.csv")
+                    with open(csv, "w") as f:
+                        f.write(",".join(names + cols + ["job_id"]) + "\n")
+                        for i in range(a, b):
+                            cells = ["F_fail"] * n_obj if i in fails else [repr(float(v)) for v in objs[i]]
+                            f.write(",".join([str(cfgs[i][k[2:]]) for k in names] + cells + [str(i)]) + "\n")
+                    s.fit_surrogate(csv)
+            if bi < len(segs) - 1 and bi < len(inter) and inter[bi]:
+                s.ask(inter[bi])   # proposals (and, for n > 1, constant-liar lies) between two tells: must leave no trace in the history
+        # constant-liar names: the FIRST element of a batch is the exploitation-only proposal (the others follow the lies)
+        asked = s.ask(batch)
+        if strategy in CL:
+            asked = asked[:1]
+        again = s.ask(1) if case.get("twice") and strategy in CL else None
+    def to_idx(nxt):
+        key = {k: (v if isinstance(v, str) else int(v)) for k, v in nxt.items()}
+        return cfgs.index(key) if key in cfgs else None
+
+    idxs = [to_idx(nxt) for nxt in asked]
+    if any(i is None for i in idxs):
         return fail(res, "oracle", "proposal_outside_space", dict(proposal=repr(asked)))
-    idxs = [cfgs.index(key) for key in keys]
-    key, idx = keys[0], idxs[0]   # cl_max: the proposal; boltzmann: its first element is the candidate with the best acquisition value
-    if strategy == "topk":
+    if again is not None:
+        idxs2 = [to_idx(nxt) for nxt in again]
+        if idxs2 != idxs[:1]:
+            # a second ask without new information: the same exploitation-only proposal (it is subject to the same oracle)
+            idxs = idxs + [i for i in idxs2 if i is not None]
+    key, idx = cfgs[idxs[0]], idxs[0]   # cl_*: the proposal; boltzmann: its first element is the candidate with the best acquisition value
+    if strategy in ("topk", "qUCB", "qUCBd"):
         return check_topk_batch(case, res, m, idxs, objs_q, told_rows, eff_scaler)
     if strategy == "boltzmann" and len(idxs) != batch:
-        return fail(res, "corr", "batch_size", dict(asked=keys))
-    det = dict(proposal=key, objective=objs[idx], objectives=objs)
+        return fail(res, "corr", "batch_size", dict(asked=repr(asked)))
+    det = dict(proposal=key, objective=objs[idx], objectives=objs, fails=sorted(fails))
     if n_obj == 1:
         score = [r[0] for r in objs_q]
         if kappa and case.get("stds"):   # user-level UCB: objective + kappa * sigma is maximised
             score = [r[0] + F(kappa) * F(sd) for r, sd in zip(objs_q, case["stds"])]
-        if not m.call(O_PICKMAX, qpack(score, idx)):
-            return fail(res, "oracle", "not_the_largest_objective", det)
+        for i in ([idx] if strategy == "boltzmann" else idxs):
+            if not m.call(O_PICKMAX, qpack(score, i)):
+                return fail(res, "oracle", "not_the_largest_objective", dict(det, picked=i))
         return res
     if not m.call(O_PICKIDEAL, qpack(objs_q, idx)):
         return fail(res, "oracle", "ideal_configuration_not_proposed", det)
     wpos = w is None or all(x > 0 for x in w)
-    if wpos and kind in ("Linear", "AugChebyshev") and not m.call(O_PICKPARETO, qpack(objs_q, idx)):
+    if wpos and kind in ("Linear", "AugChebyshev") and (par is None or par > 0 or kind == "Linear") and not m.call(O_PICKPARETO, qpack(objs_q, idx)):
         return fail(res, "oracle", "dominated_configuration_proposed", det)
-    if wpos and kind == "Chebyshev" and not m.call(O_PICKWEAK, qpack(objs_q, idx)):
+    if wpos and kind in ("Chebyshev", "AugChebyshev") and not m.call(O_PICKWEAK, qpack(objs_q, idx)):
         return fail(res, "oracle", "dominated_configuration_proposed", det)
+    if bounds:
+        return res   # the penalty of moo_lower_bounds is not modelled: oracles only
     if eff_scaler == "quantile-uniform" and interior_ties([[r[j] for r in told_rows] for j in range(n_obj)]):
         return dict(res, desc=res["desc"] + ["quantile-interior-ties"])
     if w is not None:   # correspondence with the model's scalarised history: the proposal minimises it
-        mod = unqs(m.call(F_MOO, qpack(SCKIND[eff_scaler], SKIND[kind], F(DEFAULT_PAR[kind]), Fl(w), n_obj, told_rows)))
+        parq = F(DEFAULT_PAR[kind] if par is None else par)
+        mod = unqs(m.call(F_MOO, qpack(SCKIND[eff_scaler], SKIND[kind], parq, Fl(w), n_obj, told_rows)))
         lo = min(mod)
         if mod[idx] - lo > Fraction(1, 10 ** 9) * max([abs(x) for x in mod] + [1]):
             return fail(res, "corr", "proposal_not_model_argmin", dict(det, model=[float(x) for x in mod], picked=idx))
@@ -1094,10 +1252,13 @@ def check_topk_batch(case, res, m, idxs, objs_q, told_rows, eff_scaler):
     ideal = [i for i in range(len(objs_q)) if all(all(a >= b for a, b in zip(objs_q[i], r)) for r in objs_q)]
     if ideal and not any(m.call(O_PICKIDEAL, qpack(objs_q, i)) for i in idxs):
         return fail(res, "oracle", "ideal_configuration_not_in_batch", det)
+    if case.get("lower_bounds"):
+        return res
     if eff_scaler == "quantile-uniform" and interior_ties([[r[j] for r in told_rows] for j in range(n_obj)]):
         return dict(res, desc=res["desc"] + ["quantile-interior-ties"])
     if w is not None:   # the batch has the n smallest model scores (value multiset, ties in any order)
-        mod = unqs(m.call(F_MOO, qpack(SCKIND[eff_scaler], SKIND[kind], F(DEFAULT_PAR[kind]), Fl(w), n_obj, told_rows)))
+        parq = F(DEFAULT_PAR[kind] if case.get("par") is None else case["par"])
+        mod = unqs(m.call(F_MOO, qpack(SCKIND[eff_scaler], SKIND[kind], parq, Fl(w), n_obj, told_rows)))
         want = sorted(mod[i] for i in m.call(F_TOPK, qpack(batch, mod)))
         got = sorted(mod[i] for i in idxs)
         if not lists_close(got, want, False):
@@ -1152,15 +1313,80 @@ def gen_e2e(count):
             case = dict(n_obj=n_obj, kind=kind, scaler=scalers[(i // 5) % 4], w=None if i % 4 == 3 else gen_weights(rng, n_obj, positive=True),
                         surrogate=sur, acq=["UCB", "UCBd"][(i // 7) % 2], path=["tell", "fit_surrogate"][(i // 11) % 2], nx=nx, nz=nz, objs=objs,
                         seed=rng.randint(0, 10 ** 6), cuts=gen_cuts(rng, nx * nz))
-            if i % 5 == 1:
-                case.update(strategy="topk", batch=rng.choice([1, 2, 3, 4, nx * nz, nx * nz + 2]))
-            elif i % 5 == 3:
-                case.update(strategy="boltzmann", batch=rng.choice([1, 2, 3]))
-            if sur == "SPY" and n_obj == 1 and (i // 8) % 2 == 0:
+            N = nx * nz
+            kappa_case = sur == "SPY" and n_obj == 1 and (i // 8) % 2 == 0
+            if kappa_case:
                 case["kappa"] = rng.choice([0.5, 1.0, 2.0])
-                case["stds"] = [dy(rng, 0, 4) for _ in range(nx * nz)]
+                case["stds"] = [dy(rng, 0, 4) for _ in range(N)]
                 case["acq"] = "UCB"
                 case["scaler"] = "identity"   # the exploration bonus kappa*sigma is on the scale of the (scaled) targets
+            # ---- which proposal(s): single (constant-liar names), one-shot batches, q-acquisition batch
+            if i % 5 == 1:
+                case.update(strategy="topk", batch=rng.choice([1, 2, 3, 4, N, N + 2]))
+            elif i % 5 == 3:
+                case.update(strategy="boltzmann", batch=rng.choice([1, 2, 3]))
+            elif i % 10 == 4:
+                # the q-batch draws its own kappas ~ Exp(kappa) for the 2nd, 3rd.. element: only kappa = 0 makes the batch deterministic
+                case.update(strategy="qUCB" if case["acq"] == "UCB" else "qUCBd", batch=rng.choice([1, 2, 3, N]), kappa=0.0, stds=None)
+                kappa_case = False
+            else:
+                case.update(strategy=rng.choice(CL), twice=rng.random() < 0.3, batch=rng.choice([1, 1, 2, 3]),
+                            interleave=[rng.choice([0, 1, 2, 3]) for _ in case["cuts"]])   # asks (with lies) between the tells
+            # ---- numeric edge patterns (single objective): 1-ulp differences, huge magnitudes, best exactly 0, all equal
+            r = rng.random()
+            if n_obj == 1 and not kappa_case and r < 0.3:
+                import numpy as np
+
+                exact_pipeline = dict(surrogate="SPY", scaler="identity", acq="UCB")
+                if r < 0.07:
+                    # 1-ulp differences: only the exact pipeline (spy surrogate that reproduces its targets, identity scaler) can and must
+                    # resolve them - a forest cannot see variations below ~1e-8 of the magnitude (variance by sums of squares), the quantile
+                    # scaler's percentiles are themselves rounded
+                    v, vals = rng.choice([1.0, -3.5, 1e15, -2.0 ** 40, 1e-9]), []
+                    for _ in range(N):
+                        vals.append(v)
+                        v = float(np.nextafter(v, np.inf))
+                    rng.shuffle(vals)
+                    # (and results told directly: a csv checkpoint is re-read by pandas' fast float parser, which is not exact to the ulp)
+                    case.update(objs=[[x] for x in vals], pattern="ulp", path="tell", **exact_pipeline)
+                elif r < 0.12:
+                    base = rng.choice([2.0 ** 52, -2.0 ** 60, 2.0 ** 62])
+                    case.update(objs=[[base + rng.randint(-8, 8) * 2.0 ** 12] for _ in range(N)], pattern="huge", **exact_pipeline)
+                elif r < 0.17:
+                    # relative differences of 2^-20 ~ 1e-6 (inside np.isclose's default tolerance): every surrogate and scaler resolves them
+                    v = rng.choice([1.0, 1024.0, -1.0, -64.0])
+                    ks = rng.sample(range(-40, 40), N)
+                    case.update(objs=[[v * (1 + k * 2.0 ** -20)] for k in ks], pattern="close")
+                elif r < 0.25:
+                    vals = [-dy(rng, 0, 8) - 0.25 for _ in range(N)]
+                    vals[rng.randrange(N)] = 0.0
+                    case.update(objs=[[x] for x in vals], pattern="best-is-zero")
+                else:
+                    case.update(objs=[[dy(rng, -4, 4)]] * N, pattern="all-equal")
+            elif n_obj > 1 and r < 0.08:
+                rows = [[-dy(rng, 0, 8) - 0.25 for _ in range(n_obj)] for _ in range(N)]
+                rows[rng.randrange(N)] = [0.0] * n_obj
+                case.update(objs=rows, pattern="best-is-zero")
+            # ---- failed evaluations among the told results (single objective; several objectives: stream fit_targets)
+            if n_obj == 1 and not kappa_case and N >= 4 and rng.random() < 0.25:
+                # "mean" gives a failed configuration the mean score: it can never be THE proposal but may enter a top-n batch,
+                # so batches are checked with "min" (a failure is the worst) only
+                batchy = case["strategy"] in ("topk", "qUCB", "qUCBd")
+                case.update(fails=sorted(rng.sample(range(1, N), rng.randint(1, N // 3))), ff="min" if batchy else rng.choice(["min", "mean"]))
+            # ---- a scalariser OBJECT with its own parameter instead of a name
+            if n_obj > 1 and case["w"] is not None and rng.random() < 0.2:
+                case["par"] = {"AugChebyshev": rng.choice([0.25, 2.0 ** -10]), "PBI": rng.choice([4.0, 0.5]),
+                               "Quadratic": rng.choice([8.0, 2.0])}.get(kind, 0.0)
+            # ---- moo_lower_bounds (penalty; oracles only)
+            if n_obj > 1 and rng.random() < 0.1:
+                ref = rng.choice(case["objs"])
+                case["lower_bounds"] = [ref[j] if rng.random() < 0.6 else None for j in range(n_obj)]
+            # ---- python / numpy number types, categorical hyperparameter, DataFrame checkpoint
+            case["otype"] = rng.choice(["float", "float", "int", "np"])
+            if nz > 1 and rng.random() < 0.3:
+                case["zcat"] = True
+            if case["path"] == "fit_surrogate" and not case.get("fails") and rng.random() < 0.4:
+                case["path"] = "fit_surrogate_df"
             yield case
     return gen
 
@@ -1171,7 +1397,11 @@ def shrink_e2e(case):
         yield dict(case, batch=case["batch"] - 1)
     cuts = case.get("cuts") or []
     for i in range(len(cuts)):
-        yield dict(case, cuts=cuts[:i] + cuts[i + 1:])
+        yield dict(case, cuts=cuts[:i] + cuts[i + 1:], interleave=None)
+    if case.get("interleave") and any(case["interleave"]):
+        yield dict(case, interleave=None)
+    if case.get("fails"):
+        return   # indices of failed configurations: keep the space as it is
     if nz > 1:
         yield dict(case, nz=1, objs=objs[::nz], stds=(case.get("stds") or [])[::nz] or None)
     if nx > 2:
@@ -1211,7 +1441,7 @@ def check_e2e_stat(case):
     kw = dict(n_estimators=25) if case["surrogate"] in ("ET", "RF") else None
     n_init = 8
     res = base_res(["surrogate=" + case["surrogate"], "n_obj=%d" % n_obj, "kind=" + (case["kind"] if n_obj > 1 else "-"), "scaler=" + case["scaler"],
-                    "dim=%d" % dim, "offset=%g" % off], scalarisation=case["kind"] if n_obj > 1 else "none",
+                    "dim=%d" % dim, "offset=%g" % off, "search-calls=%d" % (2 if case.get("two_calls") else 1), "acq=%s" % (case.get("acq") or "default")], scalarisation=case["kind"] if n_obj > 1 else "none",
                    scaler=case["scaler"] if case["scaler"] != "auto" else ("quantile-uniform" if case["surrogate"] in ("ET", "RF") else "identity"),
                    utopia="n/a" if n_obj == 1 else ("zero" if case["scaler"] in ("minmax", "quantile-uniform") or
                                                     (case["scaler"] == "auto" and case["surrogate"] in ("ET", "RF")) else "nonzero"),
@@ -1221,10 +1451,15 @@ def check_e2e_stat(case):
         with tempfile.TemporaryDirectory(prefix="vp_c05_") as d:
             # GP has no disentangled std (the default UCBd raises TypeError with GP: F04, a C02 finding) -> plain UCB for GP
             s = CBO(pb, run, log_dir=d, random_state=seed, surrogate_model=case["surrogate"], surrogate_model_kwargs=kw, n_points=1000,
-                    acq_func="UCB" if case["surrogate"] == "GP" else "UCBd",
+                    acq_func=case.get("acq") or ("UCB" if case["surrogate"] == "GP" else "UCBd"),
                     n_initial_points=n_init, objective_scaler=case["scaler"], moo_scalarization_strategy=case["kind"],
                     moo_scalarization_weight=case["w"], verbose=0)
-            df = s.search(max_evals=case["max_evals"])
+            if case.get("two_calls"):   # the same search object continued by a second search() call
+                first = case["max_evals"] // 2
+                s.search(max_evals=first)
+                df = s.search(max_evals=case["max_evals"] - first)
+            else:
+                df = s.search(max_evals=case["max_evals"])
         df = df.sort_values("job_id")
         later = df[df["job_id"] >= n_init]
         t = later["p:x"].to_numpy() if dim == 1 else 0.5 * (later["p:x"].to_numpy() + later["p:y"].to_numpy())
@@ -1255,7 +1490,11 @@ def gen_e2e_stat(count):
             dim = 1 if kind == "Quadratic" and n_obj > 1 else rng.choice([1, 2])
             yield dict(surrogate=sur, n_obj=n_obj, kind=kind, scaler=scaler, dim=dim, offset=rng.choice([0.0, 100.0, -100.0, -0.5]),
                        scale=rng.choice([1.0, 10.0, 0.125]), w=None if i % 3 else [1.0 / n_obj] * n_obj,
-                       seeds=[rng.randint(0, 10 ** 6) for _ in range(3)], max_evals=36 if sur != "GP" else 28)
+                       seeds=[rng.randint(0, 10 ** 6) for _ in range(3)], max_evals=36 if sur != "GP" else 28, two_calls=i % 2 == 1)
+        # the hedging acquisition of the GP (EI / LCB / PI chosen by their gains) and plain EI / PI, single objective
+        for acq in ("gp_hedge", "EI", "PI"):
+            yield dict(surrogate="GP", n_obj=1, kind="Linear", scaler="identity", dim=1, offset=rng.choice([0.0, 100.0, -100.0]), scale=1.0, w=None,
+                       seeds=[rng.randint(0, 10 ** 6) for _ in range(3)], max_evals=28, acq=acq, two_calls=False)
     return gen
 
 
@@ -1273,5 +1512,5 @@ def streams(tier):
         Stream("e2e_exploit", gen_e2e(3600 if th else 1500), check_e2e, shrink_e2e, timeout=120),
     ]
     if th:
-        ss.append(Stream("e2e_stat", gen_e2e_stat(97), check_e2e_stat, None, timeout=600))
+        ss.append(Stream("e2e_stat", gen_e2e_stat(97), check_e2e_stat, None, timeout=600))  # 97 combinations + 3 acquisition variants
     return ss
